@@ -59,7 +59,8 @@ ArchRecsQ == {None, R("undef", "default"), R("strong", "default")}
 (* quick: every reference graph over three objects/members and two names *)
 Arch3Q(x) == Seq3(FilesAB({"obj", "member"}, ArchRecsQ))
 (* roots (-u), weak references and whole-archive members on two files *)
-Arch2U(x) == Seq2(FilesAB(RegKinds, ArchRecs))
+(* (-u a with `a` defined nowhere turns weak references to `a` into errors in ld/lld: outside C03, left out) *)
+Arch2U(x) == {fs \in Seq2(FilesAB(RegKinds, ArchRecs)) : \E f \in 1..2 : IsDefKind(fs[f].syms["a"].def)}
 (* thorough: weak references added to the three-file graphs; chains object -> member -> member -> member *)
 Arch3T(x) == Seq3(FilesAB({"obj", "member"}, ArchRecs))
 Arch4C(x) == {<<o, m1, m2, m3>> : o \in FilesAB({"obj"}, ArchRecsQ), m1 \in FilesAB({"member"}, ArchRecsQ),
